@@ -365,6 +365,15 @@ def c17(g, tier):
         else:
             ch = g.chunk(small=True)
             yield [reset(f"C17/chunk/{i}")] + [{"op": "chunk_write", "chunk": ch, "len": L, "fill": f} for L in (0, 4, 8, 12, 64) for f in (0, 1)]
+    # rejected stand-alone chunks and items (a value or PRIV prefix + value beyond the length octet) into buffers that
+    # would be large enough: a failed write leaves the whole buffer unchanged
+    for i in range(60 if tier == "quick" else 1500):
+        if g.r.random() < 0.6:
+            ch = g.chunk(hist=False, bad=True, small=True)
+            yield [reset(f"C17/badchunk/{i}")] + [{"op": "chunk_write", "chunk": ch, "len": L, "fill": f} for L in (0, 64, 300, 600, 1200) for f in (0, 1)]
+        else:
+            item = g.item_calls(hist=False, bad=True)
+            yield [reset(f"C17/baditem/{i}")] + [{"op": "item_write", "item": item, "len": L, "fill": f} for L in (0, 64, 300, 600) for f in (0, 1)]
 
 
 def c16(g, tier):
@@ -1512,6 +1521,7 @@ def c14(g, tier):
     q = tier == "quick"
     r = g.r
     yield from c14_big(g)
+    yield from impostor_sessions(g, 150 if q else 4000, "C14/impostor")
     # (a builder history of 65536 members is beyond what TLC folds in reasonable time; the 65536-tile datagrams of
     #  C11 exercise the parser side of such compounds)
     for i in range(1200 if q else 30000):
@@ -1529,6 +1539,29 @@ def c14(g, tier):
         ops.append({"op": "cparse", "src": "image"})
         ops += [{"op": "cnext"} for _ in range(len(calls) + 2 + 3 * sum(1 for c in calls[1:] if c.get("v", {}).get("kind") == "compound"))]
         yield ops
+
+
+def impostor_sessions(g, n, sidp):
+    """compounds with a raw member that carries a built-in packet type but is not a packet of that type (the typed
+    parser refuses it), in every position: next() yields for it what the generic parser returns on it alone"""
+    r = g.r
+    IMP = [(201, [0, 0, 0, 1], 1), (200, [0, 0, 0, 1], 0), (200, [9] * 24, 2), (204, [1, 2, 3, 4], 0), (205, [0, 0, 0, 1], 1),
+           (203, [], 2), (202, [0, 0, 0, 1, 8, 1, 5, 0], 1), (202, [0, 0, 0, 1, 1, 9, 65, 66], 1), (206, [], 4)]
+    for i in range(n):
+        k = r.randrange(2, 5)
+        at = r.randrange(k)
+        members = []
+        for j in range(k):
+            if j == at:
+                ty, data, cnt = r.choice(IMP)
+                calls = [{"c": "new", "type": ty, "data": data, "via": "builder"}, {"c": "count", "v": cnt}]
+                members.append({"kind": "unk", "calls": calls, "pb": r.random() < 0.5})
+            else:
+                kk, calls = g.builder(r.choice(["rr", "bye", "app", "sdes", "sr"]), small=True)
+                members.append({"kind": kk, "calls": [c for c in calls if c["c"] != "padding"], "pb": False})
+        calls = [{"c": "new"}] + [{"c": "add_packet", "v": m} for m in members]
+        yield [reset(f"{sidp}/{i}")] + calls_to_ops("compound", calls) + [
+            {"op": "calc_size"}, {"op": "write_into", "rel": 0, "len": 64, "fill": 0}, {"op": "cparse", "src": "image"}] + [{"op": "cnext"}] * (k + 1)
 
 
 def c14_big(g):
@@ -1684,7 +1717,7 @@ def c19(g, tier):
                 calls = [c for c in calls if c["c"] != "padding"]
             members.append({"kind": k, "calls": calls, "pb": k == "unk" and r.random() < 0.5})
         calls = [{"c": "new"}] + [{"c": "add_packet", "v": m} for m in members]
-        ops = [reset(f"C19/compound/{i}")] + calls_to_ops("compound", calls) + [{"op": "calc_size"}]
+        ops = observe_midway(g, [reset(f"C19/compound/{i}")] + calls_to_ops("compound", calls), 0.4) + [{"op": "calc_size"}]
         if r.random() < 0.5:
             ops.append(unchecked_op(g, "compound", calls))
         ops += [{"op": "write_into", "rel": 0, "len": 64, "fill": 0}, {"op": "cparse", "src": "image"}]
